@@ -68,3 +68,20 @@ Proof.
   vm_compute. split; reflexivity.
 Qed.
 Print Assumptions C18_roundtrip_refuted.
+
+From HVgen Require Import Blocks.
+From HV Require Import Tie.BlockTie.
+(* ---- which image the reader re-projects (regenerated from utils.same_orientation_crs on every run) and what that means for the corrected
+        image: it takes CRS, geo-transform and size from the source as the reader sees it, so it is in the source's own coordinate system
+        exactly when the CRSs agree or the processing grid is the reference; the remaining case is known finding D18 *)
+Theorem C18_source_vrt_decisions_are_the_model snu rnu same psrc :
+  gen_vrt_src_flip snu rnu same psrc = vrt_src_flip snu rnu same psrc /\ gen_vrt_ref_flip snu rnu same psrc = vrt_ref_flip snu rnu same psrc /\
+  gen_vrt_src_to_ref_crs snu rnu same psrc = vrt_src_to_ref_crs snu rnu same psrc /\
+  gen_vrt_ref_to_src_crs snu rnu same psrc = vrt_ref_to_src_crs snu rnu same psrc /\ gen_corr_profile_from_source_view = true.
+Proof. exact (tie_vrt snu rnu same psrc). Qed.
+Theorem C18_corrected_in_source_crs_iff snu rnu same psrc :
+  corrected_in_source_crs snu rnu same psrc = true <-> same = true \/ psrc = false.
+Proof. exact (corrected_in_source_crs_iff snu rnu same psrc). Qed.
+Theorem C18_mixed_crs_source_grid_refuted : exists snu rnu same psrc, corrected_in_source_crs snu rnu same psrc = false.
+Proof. exact mixed_crs_source_grid_refuted. Qed.
+Print Assumptions C18_corrected_in_source_crs_iff.
